@@ -170,6 +170,16 @@ def _unit(args):
     for k in range(n):
         d, want = (gen_string if rng.random() < 0.6 else gen_charconst)(rng, k, target)
         decls.append(d)
+    # literals used as expressions (pointers to them): distinct literals of equal length that share their first code units
+    for k in range(6):
+        pfx, ty = rng.choice([('u', 'unsigned short'), ('U', 'unsigned'), ('L', '__typeof__(L\'a\')'), ('', 'char'), ('u8', 'unsigned char')])
+        L = rng.randrange(2, 12)
+        base = ''.join(rng.choice('abcdefgh') for _ in range(L))
+        cut = rng.randrange((L + 3) // 4, L)
+        other = base[:cut] + ''.join(rng.choice('stuvwxyz') for _ in range(L - cut))
+        third = base[:L - 1] + rng.choice('0123456789')
+        text = 'const %s *pw%d[] = { %s"%s", %s"%s", %s"%s", %s"%s" };' % (ty, k, pfx, base, pfx, other, pfx, third, pfx, base)
+        decls.append(dataref.Decl('pw%d' % k, text, ['pw%d' % k], meta=('ptr', None, text)))
     sub = os.path.join(wd, 'u%d-%s' % (idx, target))
     os.makedirs(sub, exist_ok=True)
     res = {'idx': idx, 'target': target, 'n': 0, 'skips': {}, 'viol': [], 'hist': {}, 'sample': None, 'distinct': []}
@@ -197,6 +207,13 @@ def _unit(args):
     for d in live2:
         name = d.names[0]
         prefix, want, text = d.meta
+        if prefix == 'ptr':
+            diffs = dataref.compare_symbol(name, cimgs, obj)
+            res['n'] += 1
+            res['hist']['pointer-to-literal'] = res['hist'].get('pointer-to-literal', 0) + 1
+            if diffs:
+                res['viol'].append(('value:pointer-to-literal', 'literal objects denote the wrong code units (-t %s): %s\n   %s' % (target, '; '.join(diffs)[:300], text), d.text))
+            continue
         ri = obj.symbol_image(name)
         if ri is None or name not in cimgs:
             continue
